@@ -20,7 +20,7 @@ func init() {
 		Technique: "feasible-path enumeration with phi resolution of hostTrees.get/insert, pathTrees.get/insert and BasicRouteRuleTree.Get/Insert: which radix tree (exact/wildcard index) each lookup and insertion uses, under which branch facts each result is returned, and the normaliser chain of every key on the insert and on the lookup side (agreement); census of radix insertions",
 		Meta: core.Meta{
 			Level:       "other",
-			Explanation: "Decides: (a) host keys: hostTrees.insert and hostTrees.get both use ToUpper(ReverseFqdnHost(host)); insert strips the leading '*' and selects the wildcard tree exactly when host[0] == '*', the exact tree otherwise; Insert never passes an empty host (host[0] would panic); (b) hostTrees.get consults the exact tree first; a value of the wildcard tree's LongestPrefix is returned only after the exact lookup missed and strings.Contains(TrimPrefix(key, matchedPrefix), \".\") was false (single label); the any-host entry (wildcard tree, key \"\") is returned only after the exact lookup missed and no single-label wildcard applied; not-found is returned only after all of them missed; (c) path keys: pathTrees.insert selects the wildcard tree exactly when the last byte is '*', strips it and appends '/' exactly when the remainder is non-empty and does not already end in '/'; pathTrees.get looks up the unmodified path in the exact tree first and, only after a miss, the path with '/' appended under the same condition in the wildcard tree (both sides produce keys that are empty or end in '/'); a duplicate path is rejected; (d) BasicRouteRuleTree.Get calls hostTrees.get once with the host, returns (\"\", false) when no host class was found and otherwise returns exactly the result of one pathTrees.get on that class's trees (no fallback to another host class on a path miss); Insert inserts every path of every host into the trees returned for that host, with \"*\" substituted for empty lists, and propagates errors; LookupCluster passes the port-stripped request host; radix insertions happen only in the two insert functions; (e) convertBasicRule creates one tree per product inside the product loop, hands every configured rule (ascending order) to Insert or returns an error, propagates Insert errors and publishes each tree under its product in the returned map. Not covered: the radix library's LongestPrefix/Get semantics (longest path-element prefix relies on every wildcard key ending in '/'), Unicode behaviour of ToUpper, syntax checking of rules (\"*est.com\", \"/fo*\"), the documentation tables of route.md.",
+			Explanation: "Decides: (a) host keys: hostTrees.insert and hostTrees.get both use ToUpper(ReverseFqdnHost(host)); insert strips the leading '*' and selects the wildcard tree exactly when host[0] == '*', the exact tree otherwise; Insert never passes an empty host (host[0] would panic); (b) hostTrees.get consults the exact tree first; a value of the wildcard tree's LongestPrefix is returned only after the exact lookup missed and strings.Contains(TrimPrefix(key, matchedPrefix), \".\") was false (single label); the any-host entry (wildcard tree, key \"\") is returned only after the exact lookup missed and no single-label wildcard applied; not-found is returned only after all of them missed; (c) path keys: pathTrees.insert selects the wildcard tree exactly when the last byte is '*', strips it and appends '/' exactly when the remainder is non-empty and does not already end in '/'; pathTrees.get looks up the unmodified path in the exact tree first and, only after a miss, the path with '/' appended under the same condition in the wildcard tree (both sides produce keys that are empty or end in '/'); a duplicate path is rejected; (d) BasicRouteRuleTree.Get calls hostTrees.get once with the host, returns (\"\", false) when no host class was found and otherwise returns exactly the result of one pathTrees.get on that class's trees (no fallback to another host class on a path miss); Insert inserts every path of every host into the trees returned for that host, with \"*\" substituted for empty lists, and propagates errors; LookupCluster passes the port-stripped request host; radix insertions happen only in the two insert functions; (e) convertBasicRule creates one tree per product inside the product loop, hands every configured rule (ascending order) to Insert or returns an error, propagates Insert errors and publishes each tree under its product in the returned map. Form-independence: paths continue through unexported functions and closures of the package (an extracted wildcard / any-host lookup, a key-normalising helper); string tests are read as predicates whatever their spelling: starts with c (s[0] == c, strings.HasPrefix), ends in c (s[len(s)-1] == c, strings.HasSuffix), contains c (strings.Contains*, strings.Index* compared with 0 or -1), empty (s == \"\", any comparison of len(s) with a constant), the marker strip (s[1:] / TrimPrefix, s[:len(s)-1] / TrimSuffix) and the unmatched remainder (TrimPrefix(key, prefix) / key[len(prefix):]); a branch taken when strings.HasPrefix(key, p) is false for p the prefix returned by LongestPrefix(key) cannot execute and adds no path. Not covered: the radix library's LongestPrefix/Get semantics (longest path-element prefix relies on every wildcard key ending in '/'), Unicode behaviour of ToUpper, syntax checking of rules (\"*est.com\", \"/fo*\"), the documentation tables of route.md.",
 			RuleText:    "obligations = one per (clause, path class) of the six functions, the key chain of every radix call, the census of radix.Insert call sites, LookupCluster's host operand, the Insert site of convertBasicRule",
 			Assumptions: []string{"github.com/armon/go-radix Tree.Get is exact match and LongestPrefix returns the longest stored key that is a prefix of the argument"},
 		},
@@ -46,6 +46,11 @@ func init() {
 			{Name: "advanced-mode-rules-not-inserted", File: "bfe_config/bfe_route_conf/route_rule_conf/route_table_load.go", Old: "			if err := ruleTrees.Insert(&ruleFile); err != nil {", New: "			if *ruleFile.ClusterName == AdvancedMode {\n				continue\n			}\n			if err := ruleTrees.Insert(&ruleFile); err != nil {", Expect: "tree-build"},
 			{Name: "silent-rename-and-hoist", Silent: true, File: f, Old: "	key := strings.ToUpper(string_reverse.ReverseFqdnHost(host))\n\n	//exact match firstly\n	if value, found := ht[treeMatchExact].Get(key); found {\n		return value.(pathTrees), true\n	}", New: "	reversed := string_reverse.ReverseFqdnHost(host)\n	k := strings.ToUpper(reversed)\n\n	//exact match firstly\n	exactTree := ht[treeMatchExact]\n	v, hit := exactTree.Get(k)\n	if hit {\n		return v.(pathTrees), true\n	}\n	key := k"},
 			{Name: "silent-early-return-form", Silent: true, File: f, Old: "		if strings.Contains(remainingPart, \".\") {\n			// not matched, try again to match empty string \"\", which match any hostname\n			if value, found := ht[treeMatchWildcard].Get(\"\"); found {\n				// matched with \"\"\n				return value.(pathTrees), true\n			}\n		} else {\n			// matched with wildcard host\n			return value.(pathTrees), true\n		}", New: "		if !strings.Contains(remainingPart, \".\") {\n			// matched with wildcard host\n			return value.(pathTrees), true\n		}\n		// not matched, try again to match empty string \"\", which match any hostname\n		if anyValue, anyFound := ht[treeMatchWildcard].Get(\"\"); anyFound {\n			return anyValue.(pathTrees), true\n		}"},
+			{Name: "silent-any-host-lookup-in-helper", Silent: true, File: "bfe_config/bfe_route_conf/route_rule_conf/basic_rule_tree.go", Old: "			if value, found := ht[treeMatchWildcard].Get(\"\"); found {\n				// matched with \"\"\n				return value.(pathTrees), true\n			}\n		} else {\n			// matched with wildcard host\n			return value.(pathTrees), true\n		}\n	}\n\n	return pathTrees{}, false\n}\n\n", New: "			if anyTrees, anyFound := ht.anyHost(); anyFound {\n				// matched with \"\"\n				return anyTrees, true\n			}\n		} else {\n			// matched with wildcard host\n			return value.(pathTrees), true\n		}\n	}\n\n	return pathTrees{}, false\n}\n\n// anyHost returns the trees of the rule without host condition\nfunc (ht *hostTrees) anyHost() (pathTrees, bool) {\n	value, found := ht[treeMatchWildcard].Get(\"\")\n	if !found {\n		return pathTrees{}, false\n	}\n	return value.(pathTrees), true\n}\n\n"},
+			{Name: "silent-wildcard-marker-hasprefix", Silent: true, File: "bfe_config/bfe_route_conf/route_rule_conf/basic_rule_tree.go", Old: "	if host[0] == '*' {\n		key = host[1:]", New: "	if strings.HasPrefix(host, \"*\") {\n		key = host[1:]"},
+			{Name: "silent-single-label-test-index", Silent: true, File: "bfe_config/bfe_route_conf/route_rule_conf/basic_rule_tree.go", Old: "		if strings.Contains(remainingPart, \".\") {", New: "		if strings.Index(remainingPart, \".\") != -1 {"},
+			{Name: "silent-insert-slash-guard-respelled", Silent: true, File: "bfe_config/bfe_route_conf/route_rule_conf/basic_rule_tree.go", Old: "		if len(key) > 0 && key[len(key)-1] != '/' {", New: "		if key != \"\" && !strings.HasSuffix(key, \"/\") {"},
+			{Name: "silent-prefix-of-key-defensive-check", Silent: true, File: "bfe_config/bfe_route_conf/route_rule_conf/basic_rule_tree.go", Old: "		remainingPart := strings.TrimPrefix(key, matchedPrefix)\n", New: "		if !strings.HasPrefix(key, matchedPrefix) {\n			// LongestPrefix returns a prefix of key\n			return pathTrees{}, false\n		}\n		remainingPart := strings.TrimPrefix(key, matchedPrefix)\n"},
 		},
 	})
 }
@@ -66,8 +71,8 @@ const (
 
 // c11Tree: which element of the receiver's tree array a radix call works on.
 func c11Tree(p *rtPath, i int, recv ssa.Value, arr ssa.Value) (int64, bool) {
-	ia, ok := rtLoadOf(recv).(*ssa.IndexAddr)
-	if !ok || ia.X != arr {
+	ia, ok := rtLoadOf(p.R(i, recv)).(*ssa.IndexAddr)
+	if !ok || (ia.X != arr && p.R(i, ia.X) != arr) {
 		return -1, false
 	}
 	return rtConstInt(p.R(i, ia.Index))
@@ -100,21 +105,32 @@ func c11LastByte(v ssa.Value, s ssa.Value) bool {
 // and not ending in '/' (needs the slash), or known to be empty / ending in '/'
 // (must not get one)?
 func c11SlashState(p *rtPath, i int, s ssa.Value) string {
-	isZero := func(v ssa.Value) bool { k, ok := rtConstInt(v); return ok && k == 0 }
-	isLen := func(v ssa.Value) bool { return c10IsLenOf(v, s) }
-	isSlash := func(v ssa.Value) bool { k, ok := rtConstInt(v); return ok && k == '/' }
-	nonEmpty, k1 := p.cmpFact(i, token.LSS, isZero, isLen)
-	if k1 && !nonEmpty {
+	isS := func(v ssa.Value) bool { return v == s }
+	empty, k1 := p.lenIs(i, isS, 0)
+	if k1 && empty {
 		return "complete" // empty
 	}
-	slash, k2 := p.eqFact(i, func(v ssa.Value) bool { return c11LastByte(v, s) }, isSlash)
+	// the last byte against '/', in any spelling (s[len(s)-1] == '/', strings.HasSuffix(s, "/"))
+	slash, k2 := p.strFact(i, isS, "last", '/')
 	switch {
-	case k1 && nonEmpty && k2 && !slash:
+	case k1 && !empty && k2 && !slash:
 		return "needs-slash"
 	case k2 && slash:
 		return "complete"
 	}
 	return "unknown"
+}
+
+// c11CanonStrip: the two spellings of "drop the leading '*'" are one step.
+func c11CanonStrip(steps []string) []string {
+	out := make([]string, len(steps))
+	for i, x := range steps {
+		if x == "slice(1:)" || x == "strings.TrimPrefix(*)" {
+			x = "strip(*)"
+		}
+		out[i] = x
+	}
+	return out
 }
 
 func runC11(c *core.Ctx) {
@@ -166,11 +182,12 @@ func runC11(c *core.Ctx) {
 		c.Missing("bfe_route.HostTable.LookupCluster")
 	} else {
 		c.Analysed(core.FuncKey(lc))
-		calls := core.Calls(lc, c11Pkg+".BasicRouteRuleTree.Get")
+		// the call may sit in a private helper of LookupCluster (region); the request then reaches it through the helper's parameter
+		calls := c.P.RegionCalls(lc, c11Pkg+".BasicRouteRuleTree.Get")
 		for _, call := range calls {
-			steps, root := rtChain(call.Common().Args[1], nil)
+			steps, root := rtChainRegion(c.P, call.Common().Args[1])
 			steps = rtCanonChain(steps)
-			ok := len(steps) == 1 && steps[0] == "portstrip" && rtAP(root) == "p1.HttpRequest.Host"
+			ok := len(steps) == 1 && steps[0] == "portstrip" && rtAPRegion(c.P, root) == "p1.HttpRequest.Host"
 			if ok {
 				if ia, isIA := rtLoadOf(call.Common().Args[1]).(*ssa.IndexAddr); isIA {
 					if sc, isCall := ia.X.(*ssa.Call); isCall && core.CallIs(&sc.Call, "strings.SplitN") {
@@ -200,7 +217,11 @@ func c11HostGet(c *core.Ctx, exact, wild int64, chainOut *[]string) {
 		return
 	}
 	arr, host := ssa.Value(fn.Params[0]), ssa.Value(fn.Params[1])
-	paths, complete := rtPaths(fn, 2)
+	for _, g := range c.P.Region(fn) {
+		c.Analysed(core.FuncKey(g))
+	}
+	// paths continue through private helpers (an extracted wildcard lookup, a key-normalising helper)
+	paths, complete := rtPathsR(fn, 2)
 	agg := newRtAgg(c)
 	agg.add("host-get", "hostTrees.get:enumeration", fn.Pos(), complete && len(paths) >= 2, fmt.Sprintf("%d feasible paths (complete=%v)", len(paths), complete))
 	for _, p := range paths {
@@ -259,37 +280,29 @@ func c11HostGet(c *core.Ctx, exact, wild int64, chainOut *[]string) {
 		exHit, exKnown := factOf(exactGet, exactAt, 1)
 		lpHit, lpKnown := factOf(lp, lpAt, 2)
 		anyHit, anyKnown := factOf(anyGet, anyAt, 1)
-		// the single-label test: Contains(TrimPrefix(key, matchedPrefix), ".")
+		// the single-label test: "the key without the matched prefix contains '.'", in any spelling
+		// (TrimPrefix(key, matchedPrefix) or key[len(matchedPrefix):]; Contains / Index* >= 0)
 		multi, multiKnown := false, false
 		if lp != nil {
-			for _, f := range p.Facts {
-				if f.Op != token.ILLEGAL || f.I < lpAt {
-					continue
-				}
-				cc, ok := f.V.(*ssa.Call)
-				if !ok || !core.CallIs(&cc.Call, "strings.Contains") || !rtConstStr(cc.Call.Args[1], ".") {
-					continue
-				}
-				tp, ok := p.R(f.I, cc.Call.Args[0]).(*ssa.Call)
-				if !ok || !core.CallIs(&tp.Call, "strings.TrimPrefix") {
-					continue
-				}
-				if p.R(f.I, tp.Call.Args[0]) == p.R(lpAt, lp.Call.Args[1]) && p.R(f.I, tp.Call.Args[1]) == rtExtractOf(lp, 0) {
-					multi, multiKnown = f.Pol, true
-				}
+			p := p
+			lpKey, lpPrefix := p.R(lpAt, lp.Call.Args[1]), rtExtractOf(lp, 0)
+			isRem := func(v ssa.Value) bool {
+				k, pre, ok := rtRemainder(p, len(p.Items), v)
+				return ok && lpPrefix != nil && k == lpKey && pre == lpPrefix
 			}
+			multi, multiKnown = p.strFact(-1, isRem, "contains", '.')
 		}
 		exactMissed := exKnown && !exHit
 		singleLabelHit := lpKnown && lpHit && multiKnown && !multi
 		okv, okConst := rtConstBool(rets[1])
 		ta, isTA := rets[0].(*ssa.TypeAssert)
 		switch {
-		case okConst && okv && isTA && exactGet != nil && ta.X == rtExtractOf(exactGet, 0):
+		case okConst && okv && isTA && exactGet != nil && p.R(rn, ta.X) == rtExtractOf(exactGet, 0):
 			agg.add("host-get", "hostTrees.get:exact-result", p.pos(rn), exKnown && exHit, "the exact tree's value is returned without the exact lookup having reported found")
-		case okConst && okv && isTA && lp != nil && ta.X == rtExtractOf(lp, 1):
+		case okConst && okv && isTA && lp != nil && p.R(rn, ta.X) == rtExtractOf(lp, 1):
 			agg.add("host-get", "hostTrees.get:wildcard-result", p.pos(rn), exactMissed && singleLabelHit,
 				fmt.Sprintf("a wildcard host's trees are returned without: exact lookup missed (%v), LongestPrefix found (%v), and the part matched by '*' tested to contain no \".\" (%v): '*' must match exactly one label and exact hosts win", exactMissed, lpKnown && lpHit, multiKnown && !multi))
-		case okConst && okv && isTA && anyGet != nil && ta.X == rtExtractOf(anyGet, 0):
+		case okConst && okv && isTA && anyGet != nil && p.R(rn, ta.X) == rtExtractOf(anyGet, 0):
 			noWildcard := (lpKnown && !lpHit) || (lpKnown && lpHit && multiKnown && multi)
 			agg.add("host-get", "hostTrees.get:any-result", p.pos(rn), exactMissed && anyKnown && anyHit && noWildcard,
 				"the any-host trees are returned although the exact lookup did not miss or a single-label wildcard host was not excluded first")
@@ -318,28 +331,22 @@ func c11HostInsert(c *core.Ctx, exact, wild int64, chainOut *[]string) {
 		return
 	}
 	arr, host := ssa.Value(fn.Params[0]), ssa.Value(fn.Params[1])
-	paths, complete := rtPaths(fn, 2)
+	paths, complete := rtPathsR(fn, 2)
 	agg := newRtAgg(c)
 	agg.add("host-insert", "hostTrees.insert:enumeration", fn.Pos(), complete && len(paths) >= 2, fmt.Sprintf("%d feasible paths (complete=%v)", len(paths), complete))
-	isFirstByte := func(v ssa.Value) bool {
-		x, index, ok := rtStrIndex(v)
-		if !ok || x != host {
-			return false
-		}
-		k, ok := rtConstInt(index)
-		return ok && k == 0
-	}
-	isStar := func(v ssa.Value) bool { k, ok := rtConstInt(v); return ok && k == '*' }
+	isHost := func(v ssa.Value) bool { return v == host }
 	for _, p := range paths {
 		rets, rn := p.ret()
 		if rn < 0 || len(rets) != 1 {
 			continue
 		}
-		star, starKnown := p.eqFact(len(p.Items), isFirstByte, isStar)
+		// "the host starts with '*'": host[0] == '*' or strings.HasPrefix(host, "*")
+		star, starKnown := p.strFact(-1, isHost, "first", '*')
 		class := "exact"
 		wantTree, wantChain := exact, []string{c11Upper, c11Revers}
 		if starKnown && star {
-			class, wantTree, wantChain = "wildcard", wild, []string{c11Upper, c11Revers, "slice(1:)"}
+			// dropping the marker: host[1:] or strings.TrimPrefix(host, "*")
+			class, wantTree, wantChain = "wildcard", wild, []string{c11Upper, c11Revers, "strip(*)"}
 		}
 		if !starKnown {
 			agg.add("host-insert", "hostTrees.insert:class-tested", p.pos(rn), false, "a host is inserted without host[0] having been compared with '*'")
@@ -361,10 +368,11 @@ func c11HostInsert(c *core.Ctx, exact, wild int64, chainOut *[]string) {
 				get, getAt = call, i
 			}
 			agg.add("host-insert", "hostTrees.insert:"+class+"-tree:"+what, call.Pos(), known && idx == wantTree, fmt.Sprintf("a %s host is handled in tree %d, expected tree %d ('*' hosts belong to the wildcard tree, all others to the exact tree)", class, idx, wantTree))
+			steps = c11CanonStrip(steps)
 			ok = rtJoin(steps) == rtJoin(wantChain) && root == host
 			agg.add("host-key", "hostTrees.insert:"+class+"-key:"+what, call.Pos(), ok, "a "+class+" host is stored under ["+rtJoin(steps)+"] of "+core.Render(root)+"; expected ["+rtJoin(wantChain)+"] of the host")
 			if ok {
-				*chainOut = rtWithout(steps, "slice(1:)")
+				*chainOut = rtWithout(steps, "strip(*)")
 			}
 		}
 		found, foundKnown := false, false
@@ -376,7 +384,7 @@ func c11HostInsert(c *core.Ctx, exact, wild int64, chainOut *[]string) {
 		switch {
 		case foundKnown && found:
 			ta, isTA := rets[0].(*ssa.TypeAssert)
-			agg.add("host-insert", "hostTrees.insert:"+class+"-existing", p.pos(rn), isTA && ta.X == rtExtractOf(get, 0) && ins == nil, "when the host already has trees they must be returned (so that all its paths share one pathTrees) and nothing inserted")
+			agg.add("host-insert", "hostTrees.insert:"+class+"-existing", p.pos(rn), isTA && p.R(rn, ta.X) == rtExtractOf(get, 0) && ins == nil, "when the host already has trees they must be returned (so that all its paths share one pathTrees) and nothing inserted")
 		case foundKnown && !found:
 			ok := ins != nil
 			if ok {
@@ -420,18 +428,17 @@ func c11PathInsert(c *core.Ctx, exact, wild int64) {
 		return
 	}
 	arr, path, cluster := ssa.Value(fn.Params[0]), ssa.Value(fn.Params[1]), ssa.Value(fn.Params[2])
-	paths, complete := rtPaths(fn, 2)
+	isPath := func(v ssa.Value) bool { return v == path }
+	paths, complete := rtPathsR(fn, 2)
 	agg := newRtAgg(c)
 	agg.add("path-insert", "pathTrees.insert:enumeration", fn.Pos(), complete && len(paths) >= 2, fmt.Sprintf("%d feasible paths (complete=%v)", len(paths), complete))
-	isZero := func(v ssa.Value) bool { k, ok := rtConstInt(v); return ok && k == 0 }
-	isStar := func(v ssa.Value) bool { k, ok := rtConstInt(v); return ok && k == '*' }
 	for _, p := range paths {
 		rets, rn := p.ret()
 		if rn < 0 || len(rets) != 1 {
 			continue
 		}
 		inss := p.calls(c11RIns)
-		empty, emptyKnown := p.eqFact(len(p.Items), func(v ssa.Value) bool { return c10IsLenOf(v, path) }, isZero)
+		empty, emptyKnown := p.lenIs(len(p.Items), isPath, 0)
 		if emptyKnown && empty {
 			agg.add("path-insert", "pathTrees.insert:empty-path", p.pos(rn), len(inss) == 0 && !rtIsNil(rets[0]), "an empty path must be rejected with an error and nothing inserted")
 			continue
@@ -446,7 +453,8 @@ func c11PathInsert(c *core.Ctx, exact, wild int64) {
 			agg.add("path-insert", "pathTrees.insert:length-tested", ins.Pos(), false, "path[len(path)-1] is read without len(path) == 0 having been excluded")
 			continue
 		}
-		star, starKnown := p.eqFact(ii, func(v ssa.Value) bool { return c11LastByte(v, path) }, isStar)
+		// "the path ends in '*'": path[len(path)-1] == '*' or strings.HasSuffix(path, "*")
+		star, starKnown := p.strFact(ii, isPath, "last", '*')
 		if !starKnown {
 			agg.add("path-insert", "pathTrees.insert:class-tested", ins.Pos(), false, "a path is inserted without its last byte having been compared with '*'")
 			continue
@@ -458,21 +466,15 @@ func c11PathInsert(c *core.Ctx, exact, wild int64) {
 			agg.add("path-insert", "pathTrees.insert:exact-key", ins.Pos(), len(steps) == 0 && root == path, "an exact path is stored under ["+rtJoin(steps)+"] of "+core.Render(root)+", expected the path itself")
 		} else {
 			agg.add("path-insert", "pathTrees.insert:prefix-tree", ins.Pos(), known && idx == wild, fmt.Sprintf("a path with trailing '*' is inserted into tree %d, expected the wildcard tree %d", idx, wild))
-			// the stripped path: path[:len(path)-1]
+			// the stripped path: path[:len(path)-1] or strings.TrimSuffix(path, "*")
 			var stripped ssa.Value
-			kOK := root == path && len(steps) >= 1 && strings.HasPrefix(steps[len(steps)-1], "slice(:")
-			if kOK {
+			if root == path && len(steps) >= 1 {
 				v := p.R(ii, ins.Call.Args[1])
-				if b, ok := v.(*ssa.BinOp); ok {
+				if b, ok := v.(*ssa.BinOp); ok && b.Op == token.ADD {
 					v = p.R(ii, b.X)
 				}
-				sl, ok := v.(*ssa.Slice)
-				if ok && sl.Low == nil && sl.High != nil {
-					if hb, ok := sl.High.(*ssa.BinOp); ok && hb.Op == token.SUB && c10IsLenOf(hb.X, path) {
-						if k, ok := rtConstInt(hb.Y); ok && k == 1 {
-							stripped = sl
-						}
-					}
+				if s0, ok := rtStripLast(p, ii, v, '*'); ok && s0 == path {
+					stripped = v
 				}
 			}
 			if stripped == nil {
@@ -480,7 +482,7 @@ func c11PathInsert(c *core.Ctx, exact, wild int64) {
 			} else {
 				st := c11SlashState(p, ii, stripped)
 				appended := len(steps) == 2 && steps[0] == "append(/)"
-				plain := len(steps) == 1
+				plain := len(steps) == 1 && steps[0] != "append(/)"
 				ok := (appended && st == "needs-slash") || (plain && st == "complete")
 				agg.add("path-insert", "pathTrees.insert:prefix-key", ins.Pos(), ok, "a prefix path is stored under ["+rtJoin(steps)+"] while the stripped path is "+st+": the key must end in '/' (or be empty) exactly once, so that /foo* matches /foo and /foo/bar but not /foobar")
 			}
@@ -518,7 +520,7 @@ func c11PathGet(c *core.Ctx, exact, wild int64) {
 		return
 	}
 	arr, path := ssa.Value(fn.Params[0]), ssa.Value(fn.Params[1])
-	paths, complete := rtPaths(fn, 2)
+	paths, complete := rtPathsR(fn, 2)
 	agg := newRtAgg(c)
 	agg.add("path-get", "pathTrees.get:enumeration", fn.Pos(), complete && len(paths) >= 2, fmt.Sprintf("%d feasible paths (complete=%v)", len(paths), complete))
 	for _, p := range paths {
@@ -569,9 +571,9 @@ func c11PathGet(c *core.Ctx, exact, wild int64) {
 		okv, okConst := rtConstBool(rets[1])
 		ta, isTA := rets[0].(*ssa.TypeAssert)
 		switch {
-		case okConst && okv && isTA && exactGet != nil && ta.X == rtExtractOf(exactGet, 0):
+		case okConst && okv && isTA && exactGet != nil && p.R(rn, ta.X) == rtExtractOf(exactGet, 0):
 			agg.add("path-get", "pathTrees.get:exact-result", p.pos(rn), exKnown && exHit, "the exact tree's value is returned without the lookup having reported found")
-		case okConst && okv && isTA && lp != nil && ta.X == rtExtractOf(lp, 1):
+		case okConst && okv && isTA && lp != nil && p.R(rn, ta.X) == rtExtractOf(lp, 1):
 			agg.add("path-get", "pathTrees.get:prefix-result", p.pos(rn), exKnown && !exHit && lpKnown && lpHit, "a prefix rule's cluster is returned although the exact path lookup did not miss first, or LongestPrefix did not report found")
 		case okConst && !okv:
 			agg.add("path-get", "pathTrees.get:not-found", p.pos(rn), exKnown && !exHit && lpKnown && !lpHit && rtConstStr(rets[0], ""), "not-found is returned although the exact or the prefix lookup could still match")
@@ -596,7 +598,7 @@ func c11TreeGet(c *core.Ctx) {
 		c.Check("tree-get", "BasicRouteRuleTree.Get:signature", fn.Pos(), false, "BasicRouteRuleTree.Get no longer has (host, path) parameters")
 		return
 	}
-	paths, complete := rtPaths(fn, 2)
+	paths, complete := rtPathsR(fn, 2, c11HGet, c11PGet)
 	agg := newRtAgg(c)
 	agg.add("tree-get", "BasicRouteRuleTree.Get:enumeration", fn.Pos(), complete && len(paths) >= 2, fmt.Sprintf("%d feasible paths (complete=%v)", len(paths), complete))
 	for _, p := range paths {
@@ -611,7 +613,7 @@ func c11TreeGet(c *core.Ctx) {
 			continue
 		}
 		hg := p.Items[hgs[0]].In.(*ssa.Call)
-		agg.add("tree-get", "BasicRouteRuleTree.Get:host-operand", hg.Pos(), rtAP(hg.Call.Args[0]) == "p0.hosts" && hg.Call.Args[1] == ssa.Value(fn.Params[1]), "hostTrees.get must run on r.hosts with the host argument")
+		agg.add("tree-get", "BasicRouteRuleTree.Get:host-operand", hg.Pos(), p.AP(hgs[0], hg.Call.Args[0]) == "p0.hosts" && p.R(hgs[0], hg.Call.Args[1]) == ssa.Value(fn.Params[1]), "hostTrees.get must run on r.hosts with the host argument")
 		found, known := false, false
 		if v := rtExtractOf(hg, 1); v != nil {
 			found, known = p.factAfter(hgs[0], v)
@@ -633,7 +635,17 @@ func c11TreeGet(c *core.Ctx) {
 						trees = p.R(si, p.Items[si].In.(*ssa.Store).Val)
 					}
 				}
-				ok = trees != nil && trees == rtExtractOf(hg, 0) && pg.Call.Args[1] == ssa.Value(fn.Params[2]) &&
+				if trees == nil {
+					// the trees handed on by value through a helper's parameter
+					if par, isPar := recv.(*ssa.Parameter); isPar && par.Parent() != fn {
+						if a, isA := p.R(pgs[0], par).(*ssa.Alloc); isA {
+							if si := p.lastStore(pgs[0], func(s *ssa.Store) bool { return s.Addr == ssa.Value(a) }); si >= 0 {
+								trees = p.R(si, p.Items[si].In.(*ssa.Store).Val)
+							}
+						}
+					}
+				}
+				ok = trees != nil && trees == rtExtractOf(hg, 0) && p.R(pgs[0], pg.Call.Args[1]) == ssa.Value(fn.Params[2]) &&
 					rets[0] == rtExtractOf(pg, 0) && rets[1] == rtExtractOf(pg, 1)
 			}
 			agg.add("tree-get", "BasicRouteRuleTree.Get:path-in-class", p.pos(rn), ok, "once a host class is found Get must return exactly the result of one pathTrees.get(path) on that class's trees: a path miss must not fall back to another host class")
@@ -650,7 +662,7 @@ func c11TreeInsert(c *core.Ctx) {
 		return
 	}
 	c.Analysed(core.FuncKey(fn))
-	paths, complete := rtPaths(fn, 2)
+	paths, complete := rtPathsR(fn, 2, c11HIns, c11PIns)
 	agg := newRtAgg(c)
 	agg.add("tree-insert", "BasicRouteRuleTree.Insert:enumeration", fn.Pos(), complete && len(paths) >= 2, fmt.Sprintf("%d feasible paths (complete=%v)", len(paths), complete))
 	isZero := func(v ssa.Value) bool { k, ok := rtConstInt(v); return ok && k == 0 }
